@@ -3,8 +3,10 @@
 (* C20: over the recorded table of (term of the AST, calc_ast_hash) pairs, *)
 (* the hash must be a function of the structure (Stable) and injective on  *)
 (* it (Sensitive):  h_i = h_j  <=>  t_i = t_j.                             *)
-(* record: [id, tk, h]; tk = canonical text of the term (atomic for TLC, so *)
-(* that comparing two structures is one string comparison)                 *)
+(* record: [id, tk, h, ok]; tk = canonical text of the term (atomic for TLC, *)
+(* so that comparing two structures is one string comparison); ok = the     *)
+(* function returned a value (a query that cannot be hashed at all has no   *)
+(* hash to compare: clause Defined).                                        *)
 (***************************************************************************)
 EXTENDS Terms, Json, IOUtils
 
@@ -12,7 +14,8 @@ Trace == ndJsonDeserialize(IOEnv.IN_FILE)
 AppendOpt == [format |-> "TXT", charset |-> "UTF-8",
               openOptions |-> <<"WRITE", "CREATE", "APPEND">>]
 N == Len(Trace)
-Pairs == {<<Trace[i].tk, Trace[i].h>> : i \in 1..N}
+Pairs == {<<Trace[i].tk, Trace[i].h>> : i \in {j \in 1..N : Trace[j].ok}}
+Defined == \A i \in 1..N : Trace[i].ok
 Structures == {p[1] : p \in Pairs}
 Hashes == {p[2] : p \in Pairs}
 Stable == Cardinality(Pairs) = Cardinality(Structures)       \* one hash per structure
@@ -21,7 +24,7 @@ Sensitive == Cardinality(Pairs) = Cardinality(Hashes)        \* one structure pe
 VARIABLE l
 Init == l = 0
 Next == /\ l = 0 /\ l' = 1
-        /\ Serialize(ToJson([stable |-> Stable, sensitive |-> Sensitive, pairs |-> Cardinality(Pairs),
+        /\ Serialize(ToJson([stable |-> Stable, sensitive |-> Sensitive, defined |-> Defined, pairs |-> Cardinality(Pairs),
                              structures |-> Cardinality(Structures), n |-> N]) \o "\n",
                      IOEnv.OUT_FILE, AppendOpt).exitValue = 0
 Spec == Init /\ [][Next]_l
